@@ -186,6 +186,10 @@ fn survey(space: &str, tier: Tier, dump: bool) {
     // sequential in-process enumeration printing a histogram of symptom classes (development aid)
     install_panic_hook();
     let sp = build(space, "", tier);
+    if std::env::var("C07_COUNT_ONLY").is_ok() {
+        println!("space {space}: {} cases", sp.len());
+        return;
+    }
     let mut hist: std::collections::BTreeMap<String, (u64, u64, String)> = Default::default();
     let mut outcomes: std::collections::BTreeMap<String, u64> = Default::default();
     let stride: u64 = std::env::var("C07_STRIDE").ok().and_then(|s| s.parse().ok()).unwrap_or(1);
